@@ -89,6 +89,19 @@ def make_dataset(rng, n, d, gclass):
         X = X[rng.permutation(n)]
     elif gclass == "G7":
         X = rng.normal(size=(n, d)) * (10.0 ** rng.integers(-6, 7, size=(1, d)))
+    elif gclass == "G7S":
+        # one global scale, tiny or huge: absolute thresholds (an epsilon, a clip at some constant) show up here
+        X = rng.normal(size=(n, d)) * (10.0 ** float(rng.choice([-13, -12, -11, -8, 3, 4, 5, 6])))
+    elif gclass == "GJ":
+        # jittered lattice + a tight clump + a far outlier: many near-equal (not equal) densities
+        side = max(2, int(np.ceil(n ** (1.0 / max(d, 1)))))
+        grid = np.stack(np.meshgrid(*[np.arange(side, dtype=float)] * d, indexing="ij"), -1).reshape(-1, d)
+        X = grid[rng.permutation(len(grid))[:n]] if len(grid) >= n else grid[rng.integers(0, len(grid), size=n)]
+        X = X + rng.normal(size=X.shape) * (10.0 ** float(rng.integers(-6, -1)))
+        c = max(1, n // 5)
+        X[:c] = X[0] + rng.normal(size=(c, d)) * 1e-3
+        X[-1] = X[-1] + 25.0
+        X = X[rng.permutation(n)]
     else:
         raise ValueError(gclass)
     return np.ascontiguousarray(X, dtype=float)
@@ -163,6 +176,8 @@ def make_matrix(rng, N, kind):
         A = rng.integers(0, 3, size=(N, N)).astype(float)
         D = np.triu(A, 1)
         D = D + D.T
+    elif kind == "MA":
+        D = rng.uniform(0.1, 10, size=(N, N))       # asymmetric: D[i][j] != D[j][i]
     elif kind == "ONES":
         D = np.ones((N, N))              # the all-ones matrix the repository's tests install: the all-ties extreme
     elif kind == "M4":
